@@ -12,10 +12,13 @@ import (
 	"errors"
 	"fmt"
 
+	"github.com/ipfs/go-peertaskqueue/peertask"
 	"github.com/ipld/go-ipld-prime/datamodel"
+	"github.com/ipld/go-ipld-prime/traversal"
 	"github.com/libp2p/go-libp2p/core/peer"
 
 	"github.com/ipfs/go-graphsync"
+	"github.com/ipfs/go-graphsync/internal/verifrt"
 	gsmsg "github.com/ipfs/go-graphsync/message"
 	"github.com/ipfs/go-graphsync/responsemanager"
 	"github.com/ipfs/go-graphsync/responsemanager/hooks"
@@ -63,6 +66,13 @@ type Env struct {
 	BlockPauseAt map[key]int // block hook pauses at this block index (1-based), 0 = never
 	MaxLinks     map[key]uint64
 
+	// Chooser: the prototype chooser request hooks install (default kit.Chooser)
+	Chooser traversal.LinkTargetNodePrototypeChooser
+	// Panics: values passed to the panic callback
+	Panics []any
+	// DelayFinish: see slowManager
+	DelayFinish bool
+
 	// observations
 	ReqHookCalls map[key]int
 	UpdHookCalls map[key]int
@@ -87,8 +97,9 @@ func NewEnv(dag *kit.DAG, has []bool, workers int, maxLinksGlobal uint64, total,
 	e.Ctx, e.Cancel = e.S.Ctx, e.S.Cancel
 	e.Store = kit.NewStore(dag, has)
 	e.TQ = taskqueue.NewTaskQueue(e.Ctx)
-	e.RM = responsemanager.New(e.Ctx, e.Store.LinkSystem(), e.S.RA, e, e, e, e, e, e, e, e, maxLinksGlobal, nil, e.TQ)
-	e.QE = queryexecutor.New(e.Ctx, e.RM, e, e)
+	e.Chooser = kit.Chooser
+	e.RM = responsemanager.New(e.Ctx, e.Store.LinkSystem(), e.S.RA, e, e, e, e, e, e, e, e, maxLinksGlobal, func(obj any, stack string) { e.Panics = append(e.Panics, obj) }, e.TQ)
+	e.QE = queryexecutor.New(e.Ctx, &slowManager{ResponseManager: e.RM, e: e}, e, e)
 	if workers > 0 {
 		e.TQ.Startup(uint64(workers), e.QE)
 	}
@@ -96,12 +107,29 @@ func NewEnv(dag *kit.DAG, has []bool, workers int, maxLinksGlobal uint64, total,
 	return e
 }
 
+// slowManager is the manager handed to the query executor: the real
+// ResponseManager, except that (when DelayFinish is set) the executor's
+// goroutine is descheduled right before it reports the end of a task, until
+// every other goroutine has run as far as it can: the schedule in which the
+// message queue's notifications overtake the executor's FinishTask message.
+type slowManager struct {
+	*responsemanager.ResponseManager
+	e *Env
+}
+
+func (m *slowManager) FinishTask(task *peertask.Task, p peer.ID, err error) {
+	if m.e.DelayFinish {
+		verifrt.Quiesce()
+	}
+	m.ResponseManager.FinishTask(task, p, err)
+}
+
 // --- hooks
 
 func (e *Env) ProcessRequestHooks(p peer.ID, request graphsync.RequestData, ctx context.Context) hooks.RequestResult {
 	k := key{p, request.ID()}
 	e.ReqHookCalls[k]++
-	r := hooks.RequestResult{Ctx: ctx, CustomChooser: kit.Chooser, MaxLinks: e.MaxLinks[k]}
+	r := hooks.RequestResult{Ctx: ctx, CustomChooser: e.Chooser, MaxLinks: e.MaxLinks[k]}
 	if e.ReqHookExt[k] {
 		r.Extensions = []graphsync.ExtensionData{{Name: "hook/ext", Data: extNode()}}
 	}
